@@ -184,6 +184,36 @@ class SSet(Symbolic):
         return NotImplemented
 
 
+_MEMF = {}
+
+
+def _memf(sort):
+    key = sort.name() if hasattr(sort, "name") else str(sort)
+    if key not in _MEMF:
+        _MEMF[key] = (z3.Function(f"occurs_{key}", z3.ArraySort(z3.IntSort(), sort), z3.IntSort(), sort, z3.BoolSort()), sort)
+    return _MEMF[key][0]
+
+
+def member_formula(seq, x, upto=None):
+    """`x occurs in seq before position upto` as an atom occurs(arr, n, x); its definition
+    (exists j. 0 <= j < n and arr[j] = x) is the axiom returned by member_axioms().  Facts about concatenation, slicing and
+    literals are stated over these atoms, so that chaining them is propositional."""
+    n = seq.length if upto is None else upto
+    return _memf(seq.ec.sort)(seq.arr, n, x)
+
+
+def member_axioms():
+    out = []
+    for key, (f, sort) in _MEMF.items():
+        A = z3.Const(f"A_{key}", z3.ArraySort(z3.IntSort(), sort))
+        n, j = z3.Ints(f"n_{key} j_{key}")
+        x = z3.Const(f"x_{key}", sort)
+        out.append(z3.ForAll([A, n, x], f(A, n, x) == z3.Exists([j], z3.And(0 <= j, j < n, A[j] == x))))
+        # unfolding of the bound
+        out.append(z3.ForAll([A, n, x], z3.Implies(n >= 0, f(A, n + 1, x) == z3.Or(f(A, n, x), A[n] == x))))
+    return out
+
+
 class SSeq(Symbolic):
     """immutable sequence (tuple / list used read-only) of symbolic length"""
 
@@ -218,26 +248,57 @@ class SSeq(Symbolic):
         if isinstance(idx, slice):
             if idx.step is not None:
                 raise OutOfSubset("slice step on symbolic sequence", node)
-            lo = to_z3(idx.start, "int") if idx.start is not None else z3.IntVal(0)
-            if idx.stop is not None:
-                raise OutOfSubset("slice stop on symbolic sequence", node)
-            # s[lo:]  (lo >= 0 assumed concrete-nonneg or symbolic within range)
+            cx = it.cx
             n = self.length
-            lo_c = z3.If(lo > n, n, lo)
-            j = z3.Int(it.cx.fresh_name("j"))
-            return SSeq(it.cx, self.ec, self.name + "[lo:]", length=n - lo_c,
-                        arr=z3.Lambda([j], self.at(j + lo_c)), pytype=self.pytype)
+
+            def clamp(b, default):
+                if b is None:
+                    return default
+                bz = to_z3(b, "int")
+                if cx.check(z3.Not(z3.And(0 <= bz, bz <= n))) == z3.unsat:
+                    return bz           # within bounds on this path: no clamping needed
+                bz = z3.If(bz < 0, bz + n, bz)
+                return z3.If(bz < 0, z3.IntVal(0), z3.If(bz > n, n, bz))
+            lo, hi = clamp(idx.start, z3.IntVal(0)), clamp(idx.stop, n)
+            ln = z3.simplify(hi - lo) if cx.check(hi < lo) == z3.unsat else z3.simplify(z3.If(hi > lo, hi - lo, z3.IntVal(0)))
+            out = SSeq(cx, self.ec, self.name + "[:]", length=ln, pytype=self.pytype)
+            j = z3.Int(cx.fresh_name("j"))
+            cx.assume(z3.ForAll([j], z3.Implies(z3.And(0 <= j, j < out.length), out.at(j) == self.at(j + lo))))
+            # a prefix s[:i] and the suffix s[i:] at the same index split the elements of s
+            if not hasattr(self, "_slices"):
+                self._slices = {}
+            if idx.start is None and idx.stop is not None:
+                self._slices[("pre", hi.get_id())] = out
+                other = self._slices.get(("suf", hi.get_id()))
+            elif idx.stop is None and idx.start is not None:
+                self._slices[("suf", lo.get_id())] = out
+                other = self._slices.get(("pre", lo.get_id()))
+            else:
+                other = None
+            if other is not None:
+                x = z3.Const(cx.fresh_name("xs"), self.ec.sort)
+                cx.assume(z3.ForAll([x], member_formula(self, x) == z3.Or(member_formula(out, x), member_formula(other, x))))
+            return out
         i = to_z3(idx, "int")
         n = self.length
         if it.cx.branch(z3.Or(i >= n, i < -n), node):
             ops.raise_(IndexError, "sequence index out of range", node=node)
         return self.ec.wrap(self.at(z3.If(i >= 0, i, i + n)))
 
+    def _fresh_like(self, cx, base):
+        return SSeq(cx, self.ec, base, pytype=self.pytype)
+
+    def _unpack(self, it, n_items, node):
+        if it.cx.branch(self.length != n_items, node):
+            ops.raise_(ValueError, "wrong number of values to unpack", node=node)
+        return [self.ec.wrap(self.at(z3.IntVal(q))) for q in range(n_items)]
+
     def _contains(self, it, x, node=None):
         j = z3.Int(it.cx.fresh_name("j"))
         xx = self.ec.unwrap(x)
         if self.mem is not None:
             return SV(self.mem(xx), "bool")
+        return SV(member_formula(self, xx), "bool")
         return SV(z3.Exists([j], z3.And(0 <= j, j < self.length, self.at(j) == xx)), "bool")
 
     def _binop(self, it, name, other, rev, node, inplace):
@@ -286,4 +347,38 @@ def seq_concat(it, a, b, node=None):
                                         out.at(j) == z3.If(j < la, ata(j), atb(j - la)))))
     if mema is not None and memb is not None:
         out.mem = lambda m: z3.Or(mema(m), memb(m))
+    # membership in a concatenation (a theorem about sequences, stated with the canonical member formula)
+    x = z3.Const(cx.fresh_name("xc"), ec.sort)
+
+    def memf(part, m):
+        if isinstance(part, SSeq):
+            return member_formula(part, m)
+        return z3.Or(*[m == ec.unwrap(v) for v in part]) if len(part) else z3.BoolVal(False)
+    cx.assume(z3.ForAll([x], member_formula(out, x) == z3.Or(memf(a, x), memf(b, x))))
     return out
+
+
+def seq_from_list(cx, ec: Codec, items, pytype=list, name="lit"):
+    """a sequence with concretely many (symbolic) elements"""
+    out = SSeq(cx, ec, name, length=z3.IntVal(len(items)), pytype=pytype)
+    for q, v in enumerate(items):
+        cx.assume(out.at(z3.IntVal(q)) == ec.unwrap(v))
+    elems = [ec.unwrap(v) for v in items]
+    out.mem = (lambda m: z3.Or(*[m == e for e in elems])) if elems else (lambda m: z3.BoolVal(False))
+    x = z3.Const(cx.fresh_name("xl"), ec.sort)
+    cx.assume(z3.ForAll([x], member_formula(out, x) == out.mem(x)))
+    return out
+
+
+class SZip(Symbolic):
+    """zip(...) of symbolic sequences: iterated in lock-step up to the shortest"""
+    _symbolic_iterable = True
+
+    def __init__(self, seqs):
+        self.seqs = seqs
+
+    def _loop_view(self, it):
+        n = self.seqs[0].length
+        for s_ in self.seqs[1:]:
+            n = z3.If(s_.length < n, s_.length, n)
+        return z3.simplify(n), (lambda j: tuple(s_.ec.wrap(s_.at(j)) for s_ in self.seqs)), (lambda j: self.seqs[0].at(j))
